@@ -2,6 +2,7 @@ package harness
 
 import (
 	"fmt"
+	"runtime"
 	"sync"
 	"testing"
 	"testing/synctest"
@@ -189,6 +190,30 @@ func raceRegistryScenario(name string, G, M int) Scenario {
 		var wg sync.WaitGroup
 		var mu sync.Mutex
 		ids := map[string]int{}
+		// readers of the table (requests naming unknown sessions, monitoring code listing the clients) run all along
+		stopReaders := make(chan struct{})
+		var rg sync.WaitGroup
+		for ri := 0; ri < 3; ri++ {
+			rg.Add(1)
+			go func(ri int) {
+				defer rg.Done()
+				for k := 0; ; k++ {
+					select {
+					case <-stopReaders:
+						return
+					default:
+					}
+					if ri == 0 {
+						w.Srv.Clients().Keys()
+					} else {
+						w.Srv.Clients().Load(fmt.Sprintf("nobody-%d-%d", ri, k))
+					}
+					if k%64 == 0 {
+						runtime.Gosched()
+					}
+				}
+			}(ri)
+		}
 		for gi := 0; gi < G; gi++ {
 			wg.Add(1)
 			go func(gi int) {
@@ -222,6 +247,8 @@ func raceRegistryScenario(name string, G, M int) Scenario {
 			}(gi)
 		}
 		wg.Wait()
+		close(stopReaders)
+		rg.Wait()
 		synctest.Wait()
 		time.Sleep(40 * time.Second)
 		synctest.Wait()
@@ -248,7 +275,7 @@ func raceFamily(seed int64, n int) []Scenario {
 	}
 	for i := 0; i < max(1, n/4); i++ {
 		out = append(out, raceCloseScenario(fmt.Sprintf("raceclose%d_%d", seed, i), 12))
-		out = append(out, raceRegistryScenario(fmt.Sprintf("racereg%d_%d", seed, i), 8, 25))
+		out = append(out, raceRegistryScenario(fmt.Sprintf("racereg%d_%d", seed, i), 8, 60))
 	}
 	return out
 }
